@@ -93,6 +93,23 @@ def main():
         except Exception as ex:  # noqa: BLE001
             out["pack_exn"] = type(ex).__name__ + ": " + str(ex)[:200]
         res["cases"].append(out)
+    # binary ops between two packed tensors (incl. pairs with the same packed row count but different leading dimension)
+    res["pairs"] = []
+    for pc in payload.get("pairs", []):
+        a, b = mk(pc["a"]), mk(pc["b"])
+        bits = pc["a"]["bits"]
+        out = {}
+        try:
+            pa, pb = PackedTensor.pack(a, bits), PackedTensor.pack(b, bits)
+            for name, f in (("equal", lambda x, y: torch.tensor([int(torch.equal(x, y))], dtype=torch.uint8)),
+                            ("eq_elem", lambda x, y: (x == y).to(torch.uint8) if x.shape == y.shape else torch.tensor([2], dtype=torch.uint8)),
+                            ("add", lambda x, y: x + y if x.shape == y.shape else torch.tensor([2], dtype=torch.uint8)),
+                            ("cat", lambda x, y: torch.cat([x, y]) if x.shape[1:] == y.shape[1:] else torch.tensor([2], dtype=torch.uint8)),
+                            ("maximum", lambda x, y: torch.maximum(x, y) if x.shape == y.shape else torch.tensor([2], dtype=torch.uint8))):
+                out[name] = {"packed": outcome(lambda: f(pa, pb)), "plain": outcome(lambda: f(a, b))}
+        except Exception as ex:  # noqa: BLE001
+            out["exn"] = type(ex).__name__ + ": " + str(ex)[:200]
+        res["pairs"].append(out)
     for bc in payload.get("bytes", []):
         t = torch.tensor(bc["data"], dtype=torch.uint8).reshape(bc["shape"])
         bits = bc["bits"]
